@@ -1,13 +1,25 @@
 pub mod common;
+pub mod c01;
 pub mod c02;
+pub mod c04;
+pub mod c05;
+pub mod c07;
+pub mod c08;
+pub mod c09;
 
 use crate::runner::PropertyDef;
 
 pub fn lookup(id: &str) -> Option<PropertyDef> {
 	Some(match id {
+		"C01" => c01::def(),
 		"C02" => c02::def(),
+		"C04" => c04::def(),
+		"C05" => c05::def(),
+		"C07" => c07::def(),
+		"C08" => c08::def(),
+		"C09" => c09::def(),
 		_ => return None,
 	})
 }
 
-pub const ALL: &[&str] = &["C02"];
+pub const ALL: &[&str] = &["C01", "C02", "C04", "C05", "C07", "C08", "C09"];
